@@ -262,12 +262,16 @@ def measureTargetSubst (formal : Option String) (actual : Option MemRef) : Instr
     | none => .measurement m
   | i => i
 
+/-- calibration.rs:457-460: a variable qubit of the measurement calibration is bound to the measured qubit -/
+def measQubitExpansions (cq mq : Qubit) : List (String × Qubit) :=
+  match cq with
+  | .variable name => [(name, mq)]
+  | _ => []
+
 /-- The body of the loop at calibration.rs:463-503 for one body instruction of a measurement calibration. -/
 def measSubstCode (c : MCalDef) (m : Measurement) (i : Instruction) : Instruction :=
-  let σq : List (String × Qubit) := match c.identifier.qubit with
-    | .variable name => [(name, m.qubit)]
-    | _ => []
-  measureTargetSubst c.identifier.target m.target (substituteQubitVariables σq i)
+  measureTargetSubst c.identifier.target m.target
+    (substituteQubitVariables (measQubitExpansions c.identifier.qubit m.qubit) i)
 
 /-- How a matched calibration's body instruction is instantiated.  The code's way is `codeSubst`; the
 specification's way (`QV.C17.specSubst`, Spec.lean) is written separately. -/
